@@ -44,6 +44,7 @@ Installed ==
           \* C11: the one mapping left is the trampoline, and it lies inside the window; every
           \* placement that was tried and rejected has been given back
           /\ Req("C11", s.pend = {Ev.tramp_name})
+          /\ Req("C12", s.pend = {Ev.tramp_name})
           /\ Req("C11", Le(AbsDiff(Ev.tramp, Ev.func), R128))
      ELSE /\ Req("C01", Ev.entry = Ev.origb)
           /\ Req("C11", Ev.cls = "alloc-exhausted" => (s.pend = {} /\ Ev.entry = Ev.origb))
@@ -66,6 +67,7 @@ Neighbour ==
 Dropped ==
   /\ Step("Dropped")
   /\ Req("C02", Ev.entry = s.ins.origb)
+  /\ Req("C12", s.pend = {} /\ Ev.live = 0)
   /\ s' = [s EXCEPT !.phase = "dropped"]
 
 ChildExit ==
@@ -79,10 +81,17 @@ Munmap ==
   /\ Req("C11", s.phase # "dropped" /\ s.ins.outcome = "none" => Ev.name \in s.pend)
   /\ s' = [s EXCEPT !.pend = @ \ {Ev.name}]
 
-Other == l <= Last(sc) /\ Ev.ev \in {"Note", "Mprotect", "Write", "Flush", "Target"}
+\* writes: the named function's slot and owned trampolines only (C03); watched neighbours never
+Write ==
+  /\ Step("Write")
+  /\ Req("C03", Ev.region \in {"entry", "tramp"})
+  /\ Req("C03", Ev.region = "entry" => \A i \in 1..Len(Ev.changed) : Ev.changed[i] <= 16)
+  /\ s' = s
+
+Other == l <= Last(sc) /\ Ev.ev \in {"Note", "Mprotect", "Flush", "Target"}
          /\ l' = l + 1 /\ sc' = sc /\ s' = s
 
-TraceNext == Place \/ Installed \/ Called \/ Neighbour \/ Dropped \/ ChildExit \/ Mmap \/ Munmap \/ Other
+TraceNext == Place \/ Installed \/ Called \/ Neighbour \/ Dropped \/ ChildExit \/ Mmap \/ Munmap \/ Write \/ Other
 TraceSpec == TraceInit /\ [][TraceNext]_tvars
 Track == TrackProgress(sc, l)
 Post == PrintProgress
